@@ -25,6 +25,7 @@ type Options struct {
 	KeepLogs       bool
 	NoMerge        bool
 	NoSymPtr       bool
+	CrossSolver    string // second solver (e.g. cvc5) that re-decides every property assertion
 	Verbose        bool
 }
 
@@ -72,6 +73,7 @@ type RunResult struct {
 	Logs         []PathLog
 	MapRangeSites map[string]string
 	BoundPrunes  map[string]int64
+	CrossChecked, CrossUnknown int64
 	MemEvents    int64
 	Samples      []string
 }
@@ -90,6 +92,7 @@ type Run struct {
 
 	forks, enumCount, memEvents     atomic.Int64
 	merges                          atomic.Int64
+	crossChecked, crossUnknown      atomic.Int64
 	paths, done, killed, panicked   atomic.Int64
 	failed, steps, obl, discharged  atomic.Int64
 	violations                      []Violation
@@ -107,6 +110,7 @@ type Run struct {
 type Worker struct {
 	run    *Run
 	solver *Solver
+	cross  *Solver
 }
 
 func (r *Run) workerOf(st *State) *Worker { return st.w }
@@ -230,6 +234,24 @@ func (st *State) assertProp(c *Term, label string) {
 	}
 	r.obl.Add(1)
 	res, m := st.w.solver.Check(st.pc, Not(c), true)
+	if r.Opts.CrossSolver != "" && res != Unknown {
+		if st.w.cross == nil {
+			cs, err := NewSolver(r.Opts.CrossSolver, 20000)
+			if err != nil {
+				r.noteInconclusive("cross solver unavailable: " + err.Error())
+			}
+			st.w.cross = cs
+		}
+		if st.w.cross != nil {
+			res2, _ := st.w.cross.Check(st.pc, Not(c), false)
+			r.crossChecked.Add(1)
+			if res2 == Unknown {
+				r.crossUnknown.Add(1)
+			} else if res2 != res {
+				r.noteInconclusive(fmt.Sprintf("solver disagreement on %q: %s says %v, %s says %v", label, st.w.solver.Kind, res, st.w.cross.Kind, res2))
+			}
+		}
+	}
 	switch res {
 	case Unsat:
 		r.discharged.Add(1)
@@ -409,7 +431,7 @@ func (p *Program) Explore(name string, entry *ssa.Function, args []Value, opts O
 	res := &RunResult{Harness: name, Paths: r.paths.Load(), Done: r.done.Load(), Killed: r.killed.Load(), Panicked: r.panicked.Load(),
 		Failed: r.failed.Load(), Forks: r.forks.Load(), Steps: r.steps.Load(), Obligations: r.obl.Load(), Discharged: r.discharged.Load(),
 		Violations: r.violations, Reached: r.reached, Wall: time.Since(t0), Logs: r.logs, MemEvents: r.memEvents.Load(), Samples: r.samples,
-		MapRangeSites: map[string]string{}, BoundPrunes: r.prunes}
+		MapRangeSites: map[string]string{}, BoundPrunes: r.prunes, CrossChecked: r.crossChecked.Load(), CrossUnknown: r.crossUnknown.Load()}
 	r.mapRangeSites.Range(func(k, v any) bool { res.MapRangeSites[k.(string)] = v.(string); return true })
 	for _, w := range workers {
 		if w.solver.Err != "" {
@@ -417,6 +439,12 @@ func (p *Program) Explore(name string, entry *ssa.Function, args []Value, opts O
 		}
 		res.Solver.Add(w.solver.Stats)
 		w.solver.Close()
+		if w.cross != nil {
+			if w.cross.Err != "" {
+				r.inconclusive["cross solver error: "+w.cross.Err]++
+			}
+			w.cross.Close()
+		}
 	}
 	for k, n := range r.inconclusive {
 		res.Inconclusive = append(res.Inconclusive, fmt.Sprintf("%s (x%d)", k, n))
